@@ -26,7 +26,7 @@ type bytesIn struct {
 // genImage draws a byte string that has a fair chance of being accepted by the message decoder.
 func genImage(t *rapid.T) bytesIn {
 	m := gen.Message(t, gen.Opts{MaxPayloads: 6, NoBig: true})
-	switch gen.Pick(t, "imageclass", 3, 3, 8, 1, 4) {
+	switch gen.Pick(t, "imageclass", 3, 3, 8, 1, 4, 3) {
 	case 0:
 		// canonical: zero liberties, transforms in ascending type order
 		m = m.Normalize()
@@ -58,6 +58,25 @@ func genImage(t *rapid.T) bytesIn {
 		return bytesIn{W: mw, Origin: "mutated:" + fmt.Sprint(classes)}
 	case 3:
 		return bytesIn{W: gen.RawBytes(t, "raw", 400), Origin: "raw"}
+	case 5:
+		// domain payloads mixed with Encrypted payloads (anywhere in the chain) and unsupported non-critical ones
+		ps := gen.Payloads(t, gen.Opts{MaxPayloads: 3, NoBig: true})
+		n := rapid.IntRange(1, 3).Draw(t, "nextra")
+		for i := 0; i < n; i++ {
+			var rp model.Raw
+			if rapid.Bool().Draw(t, "sk") {
+				rp = model.Raw{Type: 46, Body: rapid.SliceOfN(rapid.Byte(), 1, 40).Draw(t, "skbody")}
+			} else {
+				rp = model.Raw{Type: unsupportedType(t), Body: rapid.SliceOfN(rapid.Byte(), 0, 12).Draw(t, "unkbody")}
+			}
+			pos := rapid.IntRange(0, len(ps)).Draw(t, "pos")
+			ps = append(ps[:pos], append([]model.Payload{{Kind: model.KRaw, Raw: &rp}}, ps[pos:]...)...)
+		}
+		w, err := ref.EncodeMessage(model.Message{Header: m.Header, Payloads: ps}, nil)
+		if err != nil {
+			panic(err)
+		}
+		return bytesIn{W: w, Origin: "sk+unsupported"}
 	default:
 		// well-formed chain whose payloads (of supported type codes) carry arbitrary short bodies
 		n := rapid.IntRange(1, 4).Draw(t, "nraw")
